@@ -71,6 +71,8 @@ class Drv:
             line = self._readline()
         except (BrokenPipeError, OSError):
             line = ""
+        if not line and self.dead:
+            return self.dead
         if not line:
             rc = None
             try:
